@@ -143,7 +143,7 @@ def parse_eval(path):
     out = {"confirmed": None, "suite": None, "demo_without": None, "demo_with": None, "checks": []}
     if not os.path.exists(path):
         return out
-    for l in open(path):
+    for l in open(path, errors="replace"):
         l = l.strip()
         if l.startswith("CONFIRMED="): out["confirmed"] = l.endswith("1")
         elif l.startswith("suite with patch:"): out["suite"] = l.split(":",1)[1].strip()
